@@ -1,14 +1,15 @@
-(* RefStmt.v — reference statements of C03 (the statement part of the "model grammar"): SELECT with DISTINCT, select
-   list with aliases and `*`, FROM list (possibly schema-qualified names, aliases with or without AS), joins of every
-   kind with ON / USING, WHERE, GROUP BY, HAVING, ORDER BY with direction and NULLS FIRST | LAST, LIMIT, OFFSET; set
+(* RefStmt.v — reference statements of C03 (the statement part of the "model grammar"): SELECT with DISTINCT [ON (...)],
+   select list with aliases and `*`, FROM list (possibly schema-qualified names, aliases with or without AS), joins of
+   every kind with ON / USING, WHERE, GROUP BY (expressions, ROLLUP (...), CUBE (...)), HAVING, ORDER BY with direction and
+   NULLS FIRST | LAST, LIMIT, OFFSET; set
    operations (UNION | EXCEPT | INTERSECT [ALL], left-nested as the grammar prescribes); WITH [RECURSIVE] with column
    lists and [NOT] MATERIALIZED; INSERT (VALUES rows | query, RETURNING), UPDATE (SET, WHERE, RETURNING), DELETE
    (WHERE, RETURNING).  Expressions inside statements are the reference expressions of Spec/RefGrammar.v.
 
    [render_*] gives the token list for every parenthesisation choice of every expression ([srho]: clause number and
    position -> [rho]); [ast_of_*] is the prescribed tree (typed mirror of Model/Expr.v).
-   Not in this reference grammar (see design/C03.md): DISTINCT ON, SELECT ALL, t.*, derived tables, LATERAL, ROLLUP /
-   CUBE / GROUPING SETS, FETCH, FOR, sub-query expressions, window functions, ON CONFLICT, MERGE, DDL.
+   Not in this reference grammar (see design/C03.md): SELECT ALL, t.*, derived tables, LATERAL, GROUPING SETS, FETCH,
+   FOR, sub-query expressions, window functions, ON CONFLICT, MERGE, DDL.
    Definitions only. *)
 From Coq Require Import List String Ascii Bool Arith NArith ZArith DecimalString Decimal.
 From GV Require Import Spec.RefGrammar Model.Expr.
@@ -68,10 +69,11 @@ Record mjoin := MkJoin { j_nat : bool; j_side : jside; j_table : mtable; j_cond 
 Record morder := MkOrder { o_expr : mexpr; o_dir : option bool (* Some true = ASC *); o_nulls : option bool (* Some true = FIRST *) }.
 
 Inductive mitem := IStar | IExpr (e : mexpr) (alias : malias).
+Inductive mgroup := GrExpr (e : mexpr) | GrRollup (es : list mexpr) | GrCube (es : list mexpr).   (* e | ROLLUP (..) | CUBE (..) *)
 
 Record mselect := MkSelect {
-  s_distinct : bool; s_items : list mitem; s_from : list mtable; s_joins : list mjoin;
-  s_where : option mexpr; s_group : list mexpr; s_having : option mexpr; s_order : list morder;
+  s_distinct : bool; s_distinct_on : list mexpr (* DISTINCT ON ( ... ) *); s_items : list mitem; s_from : list mtable; s_joins : list mjoin;
+  s_where : option mexpr; s_group : list mgroup; s_having : option mexpr; s_order : list morder;
   s_limit : option string; s_offset : option string }.
 
 Inductive setop := OUnion | OExcept | OIntersect.
@@ -94,7 +96,7 @@ Record mstmt := MkStmt { st_with : option mwith; st_body : mbody }.
 Definition srho := nat -> nat -> rho.
 Definition cl_items := 0.  Definition cl_on := 1.  Definition cl_where := 2.  Definition cl_group := 3.
 Definition cl_having := 4. Definition cl_order := 5. Definition cl_values := 6. Definition cl_set := 7.
-Definition cl_returning := 8.
+Definition cl_returning := 8. Definition cl_don := 9.
 (* the k-th SELECT of a set-operation chain / the k-th CTE body uses a shifted choice function *)
 Definition shift (sr : srho) (k : nat) : srho := fun c i => sr (c + 16 * k) i.
 
@@ -149,8 +151,22 @@ Definition list_clause (kwd : list token) (l : list (list token)) : list token :
 
 Definition from_toks (l : list mtable) : list token := list_clause [Tk TyFrom "FROM"] (map table_toks l).
 Definition where_toks (sr : srho) (o : option mexpr) : list token := opt_clause [Tk TyWhere "WHERE"] (render 0 (sr cl_where 0)) o.
-Definition group_toks (sr : srho) (l : list mexpr) : list token :=
-  list_clause [Tk TyGroup "GROUP"; Tk TyBy "BY"] (exprs_toks sr cl_group 0 l).
+(* the expressions of all grouping items are numbered consecutively *)
+Definition group_size (g : mgroup) : nat := match g with GrExpr _ => 1 | GrRollup es | GrCube es => List.length es end.
+Definition group_item_toks (sr : srho) (i : nat) (g : mgroup) : list token :=
+  match g with
+  | GrExpr e => render 0 (sr cl_group i) e
+  | GrRollup es => Tk TyRollup "ROLLUP" :: tLP :: sep_by [tComma] (exprs_toks sr cl_group i es) ++ [tRP]
+  | GrCube es => Tk TyCube "CUBE" :: tLP :: sep_by [tComma] (exprs_toks sr cl_group i es) ++ [tRP]
+  end.
+Fixpoint groups_toks (sr : srho) (i : nat) (l : list mgroup) : list (list token) :=
+  match l with [] => [] | g :: tl => group_item_toks sr i g :: groups_toks sr (i + group_size g) tl end.
+Definition group_toks (sr : srho) (l : list mgroup) : list token :=
+  list_clause [Tk TyGroup "GROUP"; Tk TyBy "BY"] (groups_toks sr 0 l).
+Definition distinct_toks (sr : srho) (d : bool) (don : list mexpr) : list token :=
+  if d then Tk TyDistinct "DISTINCT" ::
+            match don with [] => [] | _ => Tk TyOn "ON" :: tLP :: sep_by [tComma] (exprs_toks sr cl_don 0 don) ++ [tRP] end
+  else [].
 Definition having_toks (sr : srho) (o : option mexpr) : list token := opt_clause [Tk TyHaving "HAVING"] (render 0 (sr cl_having 0)) o.
 Definition orderby_toks (sr : srho) (l : list morder) : list token :=
   list_clause [Tk TyOrder "ORDER"; Tk TyBy "BY"] (orders_toks sr 0 l).
@@ -159,7 +175,7 @@ Definition offset_toks (o : option string) : list token := opt_clause [Tk TyOffs
 
 (* everything after the SELECT keyword *)
 Definition select_tail_toks (sr : srho) (s : mselect) : list token :=
-  (if s_distinct s then [Tk TyDistinct "DISTINCT"] else [])
+  distinct_toks sr (s_distinct s) (s_distinct_on s)
   ++ sep_by [tComma] (items_toks sr 0 (s_items s))
   ++ from_toks (s_from s) ++ joins_toks sr 0 (s_joins s)
   ++ where_toks sr (s_where s) ++ group_toks sr (s_group s) ++ having_toks sr (s_having s)
@@ -265,12 +281,14 @@ Definition ast_of_item (it : mitem) : gexpr :=
   end.
 Definition ast_of_order (o : morder) : gorder :=
   GOrder (ast_of (o_expr o)) (match o_dir o with Some false => false | _ => true end) (o_nulls o).
+Definition ast_of_group (g : mgroup) : gexpr :=
+  match g with GrExpr e => ast_of e | GrRollup es => GRollup (map ast_of es) | GrCube es => GCube (map ast_of es) end.
 Definition ast_of_select_w (w : option gwith) (s : mselect) : gselect :=
   let from := map ast_of_table (s_from s) in
-  GSelect w (s_distinct s) [] (map ast_of_item (s_items s)) from
+  GSelect w (s_distinct s) (map ast_of (s_distinct_on s)) (map ast_of_item (s_items s)) from
           (match from with [] => "" | GTable n _ _ _ :: _ => n end)
           (ast_of_joins (last from (GTable "" "" None false)) 0 (s_joins s))
-          (option_map ast_of (s_where s)) (map ast_of (s_group s)) (option_map ast_of (s_having s))
+          (option_map ast_of (s_where s)) (map ast_of_group (s_group s)) (option_map ast_of (s_having s))
           (map ast_of_order (s_order s)) (option_map dec_value (s_limit s)) (option_map dec_value (s_offset s)) None None.
 Definition ast_of_select := ast_of_select_w None.
 Definition setop_str (op : setop) : string := lit (setop_tok op).
@@ -324,12 +342,18 @@ Definition join_ok (j : mjoin) : bool :=
      end.
 Definition order_ok (o : morder) : bool := ref_expr (o_expr o).
 Definition optb {A} (f : A -> bool) (o : option A) : bool := match o with None => true | Some x => f x end.
+Definition group_ok (g : mgroup) : bool :=
+  match g with
+  | GrExpr e => ref_expr e
+  | GrRollup es | GrCube es => negb (Nat.eqb (List.length es) 0) && forallb ref_expr es
+  end.
 Definition select_ok (s : mselect) : bool :=
-  negb (Nat.eqb (List.length (s_items s)) 0) && forallb item_ok (s_items s)
+  (s_distinct s || match s_distinct_on s with [] => true | _ => false end) && forallb ref_expr (s_distinct_on s)
+  && negb (Nat.eqb (List.length (s_items s)) 0) && forallb item_ok (s_items s)
   && forallb table_ok (s_from s)
   && (match s_from s with [] => match s_joins s with [] => true | _ => false end | _ => true end)
   && forallb join_ok (s_joins s)
-  && optb ref_expr (s_where s) && forallb ref_expr (s_group s) && optb ref_expr (s_having s)
+  && optb ref_expr (s_where s) && forallb group_ok (s_group s) && optb ref_expr (s_having s)
   && forallb order_ok (s_order s) && optb number_ok (s_limit s) && optb number_ok (s_offset s).
 (* ORDER BY / LIMIT / OFFSET on an operand of a set operation needs parentheses the grammar of the parser does not
    have, and written after the last operand they belong to the whole query expression, for which the tree has no
@@ -374,12 +398,19 @@ Fixpoint joins_depth (sr : srho) (i : nat) (l : list mjoin) : nat :=
 Fixpoint orders_depth (sr : srho) (i : nat) (l : list morder) : nat :=
   match l with [] => 0 | o :: tl => Nat.max (pdepth 0 (sr cl_order i) (o_expr o)) (orders_depth sr (S i) tl) end.
 Definition opt_depth (r : rho) (o : option mexpr) : nat := match o with None => 0 | Some e => pdepth 0 r e end.
+Fixpoint groups_depth (sr : srho) (i : nat) (l : list mgroup) : nat :=
+  match l with
+  | [] => 0
+  | g :: tl => Nat.max (match g with GrExpr e => pdepth 0 (sr cl_group i) e | GrRollup es | GrCube es => exprs_depth sr cl_group i es end)
+                       (groups_depth sr (i + group_size g) tl)
+  end.
 Definition select_depth (sr : srho) (s : mselect) : nat :=
-  Nat.max (items_depth sr 0 (s_items s))
+  Nat.max (exprs_depth sr cl_don 0 (s_distinct_on s))
+   (Nat.max (items_depth sr 0 (s_items s))
     (Nat.max (joins_depth sr 0 (s_joins s))
        (Nat.max (opt_depth (sr cl_where 0) (s_where s))
-          (Nat.max (exprs_depth sr cl_group 0 (s_group s))
-             (Nat.max (opt_depth (sr cl_having 0) (s_having s)) (orders_depth sr 0 (s_order s)))))).
+          (Nat.max (groups_depth sr 0 (s_group s))
+             (Nat.max (opt_depth (sr cl_having 0) (s_having s)) (orders_depth sr 0 (s_order s))))))).
 Fixpoint query_depth (sr : srho) (base : nat) (q : mquery) : nat :=
   match q with
   | QSelect s => select_depth (shift sr base) s
@@ -447,14 +478,14 @@ Definition stmt_depth (sr : srho) (s : mstmt) : nat :=
 
 (* non-vacuity *)
 Definition ex_select : mselect :=
-  MkSelect true
+  MkSelect true []
     [IExpr (MQIdent "u" "id") None; IExpr (MFunc "COUNT" false [MIdent false "x"]) (Some (false, "n")); IStar]
     [MkTable ["public"; "users"] (Some (true, "u")); MkTable ["t"] None]
     [MkJoin false (SLeft true) (MkTable ["orders"] (Some (false, "o")))
        (Some (JOn (MBin (BCmp CEq) (MQIdent "o" "uid") (MQIdent "u" "id"))));
      MkJoin false SNone (MkTable ["items"] None) (Some (JUsing ["oid"; "k"]))]
     (Some (MBin BOr (MIdent false "a") (MBin BAnd (MIdent false "b") (MNot (MIdent false "c")))))
-    [MQIdent "u" "id"] (Some (MBin (BCmp CGt) (MFunc "COUNT" false [MIdent false "x"]) (MNum "1")))
+    [GrExpr (MQIdent "u" "id")] (Some (MBin (BCmp CGt) (MFunc "COUNT" false [MIdent false "x"]) (MNum "1")))
     [MkOrder (MIdent false "n") (Some false) (Some false); MkOrder (MNum "1") None None]
     (Some "10") (Some "5").
 Example ex_select_ok : select_ok ex_select = true. Proof. reflexivity. Qed.
@@ -470,15 +501,15 @@ Proof. reflexivity. Qed.
 (* a WITH statement over a set operation, and an INSERT ... SELECT ... RETURNING *)
 Definition ex_stmt_with : mstmt :=
   MkStmt (Some (MkWith true [MkCte "c" ["x"; "y"] (Some false)
-                               (QSetOp (QSelect (MkSelect false [IExpr (MNum "1") None; IExpr (MNum "2") None] [] [] None [] None [] None None))
+                               (QSetOp (QSelect (MkSelect false [] [IExpr (MNum "1") None; IExpr (MNum "2") None] [] [] None [] None [] None None))
                                        OUnion true
-                                       (MkSelect false [IExpr (MBin BAdd (MIdent false "x") (MNum "1")) None; IExpr (MIdent false "y") None]
-                                                 [MkTable ["c"] None] [] (Some (MBin (BCmp CLt) (MIdent false "x") (MNum "10"))) [] None [] None None))]))
+                                       (MkSelect true [MIdent false "x"] [IExpr (MBin BAdd (MIdent false "x") (MNum "1")) None; IExpr (MIdent false "y") None]
+                                                 [MkTable ["c"] None] [] (Some (MBin (BCmp CLt) (MIdent false "x") (MNum "10"))) [GrRollup [MIdent false "x"; MIdent false "y"]; GrExpr (MNum "1")] None [] None None))]))
          (BQuery (QSelect ex_select)).
 Definition ex_stmt_insert : mstmt :=
   MkStmt None
     (BInsert ["s"; "t"] ["a"; "b"]
-       (inr (QSelect (MkSelect false [IExpr (MIdent false "a") None; IExpr (MFunc "f" false [MIdent false "b"]) (Some (true, "fb"))]
+       (inr (QSelect (MkSelect false [] [IExpr (MIdent false "a") None; IExpr (MFunc "f" false [MIdent false "b"]) (Some (true, "fb"))]
                                [MkTable ["u"] None] [] None [] None [] None None)))
        [MIdent false "a"; MBin BMul (MIdent false "b") (MNum "2")]).
 Example ex_stmts_ok : stmt_ok ex_stmt_with = true /\ stmt_ok ex_stmt_insert = true. Proof. split; reflexivity. Qed.
